@@ -303,7 +303,6 @@ impl Condvar {
                     return Ok((guard, WaitTimeoutResult(false)));
                 }
                 drop(guard); // releases the mutex (Unlock event)
-                emit(Op::CvWait, label, self.id, true, m.id);
                 let timed_out = o.cv_wait(self.id).unwrap_or(true);
                 emit(Op::CvWait, label, self.id, false, timed_out as usize);
                 guard = match m.lock() {
